@@ -6,7 +6,10 @@ import (
 	"strings"
 
 	"github.com/99designs/gqlgen/graphql"
+	"github.com/99designs/gqlgen/graphql/executor"
+	"github.com/99designs/gqlgen/graphql/handler/extension"
 	"github.com/vektah/gqlparser/v2"
+	"github.com/vektah/gqlparser/v2/gqlerror"
 
 	"github.com/vektah/gqlparser/v2/ast"
 
@@ -162,4 +165,58 @@ func Harness_C16_configuredSchema() {
 		}
 	}
 	zzsym.Reach("c16.configured")
+}
+
+func Setup_C16_gate() { probeSetup() }
+
+// c16Deny is a second gate on introspection (e.g. "internal callers only"): it switches introspection off for the operation.
+type c16Deny struct{ on bool }
+
+func (c16Deny) ExtensionName() string                          { return "DenyIntrospection" }
+func (c16Deny) Validate(schema graphql.ExecutableSchema) error { return nil }
+func (d c16Deny) MutateOperationContext(ctx context.Context, opCtx *graphql.OperationContext) *gqlerror.Error {
+	if d.on {
+		opCtx.DisableIntrospection = true
+	}
+	return nil
+}
+
+// Harness_C16_gate: the real gate end to end (executor.CreateOperationContext
+// with extension.Introspection and a second extension that switches
+// introspection off for the operation, registered in either order): the
+// extensions are applied in registration order, so the one registered last
+// decides - and when that is "off", no shape of introspection query is
+// answered.
+func Harness_C16_gate() {
+	w := newWorld(0, false)
+	ex := executor.New(newES(w))
+	deny := c16Deny{on: zzsym.Choice("deny", 2) == 1}
+	enableFirst := zzsym.Choice("order", 2) == 0
+	withEnable := zzsym.Choice("introspectionExtension", 2) == 1
+	if enableFirst {
+		if withEnable {
+			ex.Use(extension.Introspection{})
+		}
+		ex.Use(deny)
+	} else {
+		ex.Use(deny)
+		if withEnable {
+			ex.Use(extension.Introspection{})
+		}
+	}
+	q := []string{`{ __schema { queryType { name } } }`, `{ t: __type(name: "User") { name } }`, `query($n: String!) { ...F } fragment F on Query { x: __type(name: $n) { kind } }`}[zzsym.Choice("query", 3)]
+	ctx := graphql.StartOperationTrace(context.Background())
+	rc, errs := ex.CreateOperationContext(ctx, &graphql.RawParams{Query: q, Variables: map[string]any{"n": "Item"}})
+	zzsym.Assert(len(errs) == 0, "the operation is accepted")
+	rh, ctx2 := ex.DispatchOperation(ctx, rc)
+	resp := rh(ctx2)
+	// enabled iff the introspection extension is present and nothing registered after it switched it off
+	enabled := withEnable && (!deny.on || !enableFirst)
+	if enabled {
+		zzsym.Assert(len(resp.Errors) == 0 && !strings.Contains(string(resp.Data), ":null"), "introspection enabled for this operation: answered")
+		zzsym.Reach("c16.gate.on")
+	} else {
+		zzsym.Assert(len(resp.Errors) == 1 && strings.Contains(string(resp.Data), ":null") && !strings.Contains(string(resp.Data), "Query") && !strings.Contains(string(resp.Data), "OBJECT"), "introspection disabled for this operation: null and one error, no schema data")
+		zzsym.Reach("c16.gate.off")
+	}
 }
